@@ -199,6 +199,11 @@ type family struct {
 
 func digestInts(xs []int) string { return fmt.Sprint(xs) }
 
+type stressRec struct {
+	A []int
+	B string
+}
+
 func composite(id, n int) [][]int {
 	out := make([][]int, n)
 	for i := range out {
@@ -266,6 +271,18 @@ func families() []family {
 			age.Sorter[int]().Make().SortValues(ws)
 			age.Sorter[int]().Make().ReverseValues(ws)
 			return fmt.Sprint(vs) + digestInts(ws)
+		}},
+		{"sort-structs", func(id int) string {
+			// Go structs with slice fields, ranked by the class's default ranker
+			vs := make([]stressRec, 20)
+			for i := range vs {
+				vs[i] = stressRec{A: []int{(id + i*7) % 5, i % 3}, B: fmt.Sprint((id * i) % 11)}
+			}
+			age.Sorter[stressRec]().Make().SortValues(vs)
+			s := col.Set[stressRec](notation).MakeFromArray(vs[:8])
+			t := col.Set[stressRec](notation).MakeFromArray(vs[4:12])
+			u := col.Set[stressRec](notation).Or(s, t)
+			return fmt.Sprint(vs) + fmt.Sprint(u.AsArray())
 		}},
 		{"rank", func(id int) string {
 			c := age.Collator[any]().Make()
